@@ -15,7 +15,7 @@ RULE = ("trees {group of 2, group of 3 with a hard link, two groups, two --isola
         "delete+recreate other bytes, replace by directory, by dangling symlink, by symlink to a fresh file, touch} x "
         "position: the external mutator is interleaved at EVERY event k (file-system read calls and clock reads) of the "
         "recorded `group -t 1` run from the first access to f until process exit (quick: one position per phase), plus "
-        "'between group and dedupe'; then each dedupe op {remove, link, link --soft, dedupe, move} (quick: remove, link) "
+        "'between group and dedupe' (the pair tree also with both commands running in time zones UTC+9, UTC-8, UTC+5:30); then each dedupe op {remove, link, link --soft, dedupe, move} (quick: remove, link) "
         "acts on the report that run produced. A state is one complete (group || mutator ; dedupe) execution, "
         "transitions are the events of the group history. Invariant: every content digest held by a regular file just "
         "before the dedupe run is still held by one afterwards (tree + move target); files outside the groups untouched.")
@@ -53,6 +53,11 @@ def cases(tier, seed):
         for f in (TREE_OPTS[t][2] if t in TREE_OPTS else ("r/a/f1", "r/b/f2")):
             for m in MUTATIONS:
                 out.append({"tree": t, "f": f, "mutation": m, "tier": tier})
+    # the same question in time zones east and west of UTC (the report timestamp carries a UTC offset)
+    for tz in ("JST-9", "PST8", "<+0530>-5:30"):
+        for f in ("r/a/f1", "r/b/f2"):
+            for m in (MUTATIONS if tier == "thorough" else ("rewrite_same_len", "recreate_other", "touch", "to_symlink_fresh")):
+                out.append({"tree": "pair", "f": f, "mutation": m, "tier": tier, "tz": tz})
     return out
 
 
@@ -127,10 +132,11 @@ def evaluate(case):
             C.rmtree(sc.tree)
             os.makedirs(sc.tree)
             C.make_tree(sc.tree, TREES[case["tree"]])
+        tzenv = {"TZ": case["tz"]} if case.get("tz") else None
         rebuild()
-        rec = S.run_with_shim(sc, args, [sc.tree], "rc")
+        rec = S.run_with_shim(sc, args, [sc.tree], "rc", env_extra=tzenv)
         rebuild()
-        rec2 = S.run_with_shim(sc, args, [sc.tree], "rc")
+        rec2 = S.run_with_shim(sc, args, [sc.tree], "rc", env_extra=tzenv)
         d = S.same_history(rec["events"], rec2["events"])
         if d:
             raise C.MachineryError("group history not deterministic: %s" % d)
@@ -151,7 +157,7 @@ def evaluate(case):
         for kind, k in positions:
             rebuild()
             if kind == "pause":
-                res = S.run_with_shim(sc, args, [sc.tree], "rc", mode="pause", at=k,
+                res = S.run_with_shim(sc, args, [sc.tree], "rc", mode="pause", at=k, env_extra=tzenv,
                                       on_pause=lambda: mutate(f_abs, case["mutation"], sc))
                 if not res["paused"]:
                     raise C.MachineryError("group did not pause at event %d" % k)
@@ -159,7 +165,7 @@ def evaluate(case):
                 if dd:
                     raise C.MachineryError("prefix diverged before event %d: %s" % (k, dd))
             else:
-                res = S.run_with_shim(sc, args, [sc.tree], "rc")
+                res = S.run_with_shim(sc, args, [sc.tree], "rc", env_extra=tzenv)
                 mutate(f_abs, case["mutation"], sc)
             transitions += len(res["events"])
             if res["rc"] != 0:
@@ -177,14 +183,15 @@ def evaluate(case):
                 C.rmtree(target)
                 subprocess.run(["cp", "-a", snap, sc.tree], check=True)
                 before = C.inventory(sc.tree)
-                r = D.run_dedupe(sc, op, [], report, target=target)
+                r = D.run_dedupe(sc, op, [], report, target=target, env_extra=tzenv)
                 after = C.inventory(sc.tree, target) if os.path.exists(target) else C.inventory(sc.tree)
                 states += 1
-                reached.append([case["tree"], case["f"], case["mutation"], kind, k, op])
+                reached.append([case["tree"], case["f"], case["mutation"], kind, k, op, case.get("tz", "UTC")])
                 sb = set(x["sha"] for x in before.values() if x["type"] == "file")
                 sa = set(x["sha"] for x in after.values() if x["type"] == "file")
                 feat = {"mutation": case["mutation"], "phase": phase, "op": op,
-                        "target_is_retained_member": case["f"].endswith("f1"), "isolate": case["tree"] in TREE_OPTS}
+                        "target_is_retained_member": case["f"].endswith("f1"), "isolate": case["tree"] in TREE_OPTS,
+                        "timezone": case.get("tz", "UTC")}
                 rc_case = dict(case, only=[[kind, k], op])
                 if "panicked" in r["err"] or r["timeout"]:
                     viol.append(dict(feat, kind="crash", detail=r["err"][-300:], replay_case=rc_case))
